@@ -561,6 +561,9 @@ def p6(facts, tier):
         bad = []
         checked = 0
         pm = parent_map(sf["body"])
+        fcalls = [y for y in walk(sf["body"]) if y.get("k") == "Call" and (callee(y) or "") == "savefile::Field::unsafe_new"]
+        field_ord = {id(y): i for i, y in enumerate(fcalls)}
+        n_field_calls = len(fcalls)
         for x in walk(sf["body"]):
             if x.get("k") != "Call":
                 continue
@@ -613,6 +616,13 @@ def p6(facts, tier):
                 if variant is not None:
                     fields = next((v.get("fields") for v in lay.get("variants", []) if v["name"] == variant), None)
                 lf = next((f for f in (fields or []) if f["name"] == name), None)
+                if variant is None and m.get("kind") == "struct":
+                    # the k-th field the schema describes is the k-th field of the definition that is not ignored (names are
+                    # not significant, so the field is identified by its position, not by the name the schema gives it)
+                    decl = [fl_ for fl_ in m.get("fields", []) if not fl_.get("ignore")]
+                    k_ = field_ord.get(id(x))
+                    if k_ is not None and len(decl) == n_field_calls and k_ < len(decl):
+                        lf = next((f for f in (fields or []) if f["name"] == decl[k_]["name"]), lf)
                 if off in ("None", "?") or lf is None:
                     continue   # unknown / computed at run time (enum variant fields): nothing recorded statically
                 checked += 1
